@@ -76,12 +76,15 @@ def library_state():
     from particle import Particle
 
     def ids(s):
-        return sorted(int(p.pdgid) for p in s)
+        try:
+            return sorted(int(p.pdgid) for p in (s or ()))
+        except Exception:  # noqa: BLE001  (a fingerprint must never fail the run)
+            return repr(s)
 
     return {
-        "all_particles": {c.__name__: ids(c.all_particles) for c in (AmplitudeChain, GooFitChain, GooFitPyChain)},
-        "final_particles": {c.__name__: ids(c.final_particles) for c in (AmplitudeChain, GooFitChain, GooFitPyChain)},
-        "cartesian": {c.__name__: bool(c.cartesian) for c in (AmplitudeChain, GooFitChain, GooFitPyChain)},
-        "pars": {c.__name__: (None if c.pars is None else list(c.pars.index)) for c in (GooFitChain, GooFitPyChain)},
+        "all_particles": {c.__name__: ids(getattr(c, "all_particles", None)) for c in (AmplitudeChain, GooFitChain, GooFitPyChain)},
+        "final_particles": {c.__name__: ids(getattr(c, "final_particles", None)) for c in (AmplitudeChain, GooFitChain, GooFitPyChain)},
+        "cartesian": {c.__name__: bool(getattr(c, "cartesian", False)) for c in (AmplitudeChain, GooFitChain, GooFitPyChain)},
+        "pars": {c.__name__: (None if getattr(c, "pars", None) is None else list(c.pars.index)) for c in (GooFitChain, GooFitPyChain)},
         "special_table_loaded": 998100 in Particle.all(),
     }
